@@ -505,3 +505,116 @@ Proof.
   - intros j0 e Hj0 He. apply rows_of_add in He as [He|[E He]]; [auto|].
     destruct Hj0 as [<-|Hj0]; [auto | apply Hlt in Hj0; lia].
 Qed.
+
+(** * Every crash-free label preserves the order invariant *)
+
+Lemma ord_store A s e : Inv A s -> Ord A s -> Ord (A ++ [e]) (store s e).
+Proof.
+  intros I O. unfold store. cbv zeta.
+  destruct (cap s <=? len _); unfold Ord, rotate; cbn [mem passives live inflight dirs jobs alloc0].
+  - apply ord_rotate; [apply ord_ins, O | apply (i_jlt _ _ _ _ _ _ _ I) | apply (i_dlt _ _ _ _ _ _ _ I)].
+  - apply ord_ins, O.
+Qed.
+
+Lemma ord_flush_cmd A s : Inv A s -> Ord A s -> Ord A (flush_cmd s).
+Proof.
+  intros I O. unfold flush_cmd, rotate, Ord. cbn [mem passives live inflight dirs jobs alloc0].
+  apply ord_rotate; [exact O | apply (i_jlt _ _ _ _ _ _ _ I) | apply (i_dlt _ _ _ _ _ _ _ I)].
+Qed.
+
+Lemma ord_wal_write A s : Ord A s -> Ord A (wal_write s).
+Proof. intros O. unfold wal_write. destruct (walq s); exact O. Qed.
+
+Lemma ord_wal_rotate A s : Ord A s -> Ord A (wal_rotate s).
+Proof. intros O. unfold wal_rotate. destruct (cap s <=? wcnt s); exact O. Qed.
+
+Lemma ord_fw A s l : Inv A s -> Ord A s -> Ord A (fw_step s l).
+Proof.
+  intros I O. unfold fw_step. destruct (jobs s) as [|j rest] eqn:Hj; [exact O|].
+  assert (I' : InvC A (mem s) (passives s) (live s) (dirs s) (j :: rest) (alloc0 s)) by (rewrite <- Hj; exact I).
+  assert (O' : OrdC A (mem s) (passives s) (live s) (inflight s) (dirs s) (j :: rest)) by (rewrite <- Hj; exact O).
+  pose proof (i_job _ _ _ _ _ _ _ I' j (or_introl eq_refl)) as Jok.
+  pose proof (o_ne _ _ _ _ _ _ _ O' j (or_introl eq_refl)) as Hne0.
+  destruct l; destruct (jstage j) eqn:Hst; try exact O.
+  - (* FwBegin *)
+    unfold Ord; cbn [mem passives live inflight dirs jobs].
+    apply ord_adv; [eapply ord_mono; [exact O' | auto | intros x Hx; rewrite memb_app, Hx; reflexivity]
+                   | rewrite Hst; reflexivity
+                   | intros _; rewrite memb_app, memb_cons, N.eqb_refl; apply orb_true_r
+                   | cbn [written]; discriminate].
+  - (* FwMkdir *)
+    unfold Ord; cbn [mem passives live inflight dirs jobs].
+    apply ord_add_rows; [exact O' | exact Hst | intros e [] | intros u; left; reflexivity].
+  - (* FwWrite *)
+    destruct (negb (memb u (uids_of (jevs j))) || dir_has_uid s (jseg j) u) eqn:Hc; [exact O|].
+    apply orb_false_iff in Hc as [Hm Hc]. apply negb_false_iff in Hm.
+    unfold Ord; cbn [mem passives live inflight dirs jobs].
+    apply ord_add_rows; [exact O' | exact Hst | |].
+    + intros e He. apply filter_In in He as [He _]. apply flush_order_in, He.
+    + intros u0. destruct (N.eqb_spec u0 u) as [->|Hne].
+      * right. split; [exact Hc|]. split.
+        -- apply memb_true in Hm. unfold uids_of in Hm. apply sort_n_in, dedup_n_in, in_map_iff in Hm as (e & Hu & He).
+           apply existsb_exists. exists e. split; [|apply N.eqb_eq, Hu].
+           apply filter_In. split; [apply flush_order_in, He | apply N.eqb_eq, Hu].
+        -- intros c. change (filter (fun e => euid e =? u) (flush_order (jevs j))) with (of_uid u (flush_order (jevs j))).
+           rewrite F_of_uid_same, F_flush_order. reflexivity.
+      * left. destruct (existsb (fun e => euid e =? u0) _) eqn:E; [|reflexivity].
+        apply existsb_exists in E as (e & He & Hu). apply filter_In in He as [_ Hu2].
+        apply N.eqb_eq in Hu, Hu2. congruence.
+  - (* FwIndex *)
+    destruct (is_empty (jevs j) || negb (forallb (dir_has_uid s (jseg j)) (uids_of (jevs j)))) eqn:Hc; [exact O|].
+    apply orb_false_iff in Hc as [He _].
+    unfold Ord; cbn [mem passives live inflight dirs jobs].
+    apply ord_adv; [exact O' | rewrite Hst; reflexivity | discriminate | intros _ E; rewrite E in He; discriminate].
+  - (* FwPublish *)
+    assert (Hne : jevs j <> []) by (apply Hne0; reflexivity).
+    destruct (is_empty (jevs j)) eqn:He.
+    + unfold set_jobs, Ord; cbn [mem passives live inflight dirs jobs].
+      apply ord_adv; [exact O' | rewrite Hst; reflexivity | discriminate | intros _; exact Hne].
+    + unfold Ord; cbn [mem passives live inflight dirs jobs].
+      apply ord_adv; [eapply ord_mono; [exact O' | | auto] | rewrite Hst; reflexivity | discriminate | intros _; exact Hne].
+      intros x Hx. destruct (memb (jseg j) (live s)); [exact Hx | rewrite memb_app, Hx; reflexivity].
+  - (* FwClear *)
+    assert (Hne : jevs j <> []) by (apply Hne0; reflexivity).
+    destruct (is_empty (jevs j)) eqn:He; [apply is_empty_true in He; contradiction|].
+    unfold Ord; cbn [mem passives live inflight dirs jobs]. apply ord_clear; assumption.
+  - (* FwWalDel *)
+    destruct (is_empty (jevs j) || negb (id <? N.succ (jseg j))); [exact O | exact O'].
+  - (* FwWalClean *)
+    assert (Hne : jevs j <> []) by (apply Hne0; reflexivity).
+    assert (O2 : OrdC A (mem s) (passives s) (live s) (inflight s) (dirs s) (mkJob (jseg j) (jevs j) StWalCleaned :: rest)).
+    { apply ord_adv; [exact O' | rewrite Hst; reflexivity | discriminate | intros _; exact Hne]. }
+    destruct (is_empty (jevs j)); exact O2.
+  - (* FwDone, nothing was flushed *)
+    destruct (is_empty (jevs j)) eqn:He; [|exact O]. apply is_empty_true in He.
+    unfold Ord; cbn [mem passives live inflight dirs jobs].
+    eapply ord_done; [exact O' | intros u _; rewrite He; reflexivity | intros _; exact He
+                     | intros Hne; contradiction | apply (i_tlq _ _ _ _ _ _ _ I')].
+  - (* FwDone *)
+    unfold Ord; cbn [mem passives live inflight dirs jobs].
+    eapply ord_done; [exact O' | | rewrite Hst; discriminate | | apply (i_tlq _ _ _ _ _ _ _ I')].
+    + intros u Hd. unfold of_uid. apply filter_none. intros e He.
+      destruct (euid e =? u) eqn:E; [|reflexivity]. apply N.eqb_eq in E. exfalso.
+      assert (T : dhu (dirs s) (jseg j) u = true); [|congruence].
+      apply dhu_spec. exists e. split; [|exact E]. apply (jo_wr _ _ _ _ Jok); [rewrite Hst; reflexivity | exact He].
+    + intros Hne. apply (jo_pub _ _ _ _ Jok); [rewrite Hst; reflexivity | exact Hne].
+Qed.
+
+Lemma ord_run c ls :
+  no_crash ls -> NoDup (map ek (applied ls)) -> Ord (applied ls) (run (init c) ls).
+Proof.
+  unfold no_crash. induction ls as [|l ls IH] using rev_ind; intros Hc Hk.
+  - apply ord_init.
+  - rewrite forallb_app in Hc. apply andb_true_iff in Hc as [Hc Hl]. cbn [forallb] in Hl.
+    rewrite run_snoc. rewrite applied_app in *.
+    assert (Hk1 : NoDup (map ek (applied ls))).
+    { rewrite map_app in Hk. apply nodup_app in Hk as (Hk1 & _ & _). exact Hk1. }
+    pose proof (inv_run c ls Hc Hk1) as I. specialize (IH Hc Hk1).
+    destruct l; cbn [is_crash negb andb] in Hl; try discriminate; cbn [applied step] in *;
+      rewrite ?app_nil_r in *.
+    + apply ord_store; assumption.
+    + apply ord_flush_cmd; assumption.
+    + apply ord_wal_write; assumption.
+    + apply ord_wal_rotate; assumption.
+    + apply ord_fw; assumption.
+Qed.
